@@ -25,7 +25,7 @@ ElfEntryBytes(es, i, rot, isStr) == ElfEntryBytesA(es, i, rot, isStr, ExtAddr)
 ElfParamsSet ==
   UNION { { [n |-> n, es |-> es, shndx |-> sh, slen |-> sl, rot |-> rot, atEnd |-> lst, strbad |-> FALSE]
             \* string-table indices also from the reserved range of ELF (0xff00..0xffff): just as far outside the table
-            : sh \in 0..(n + 1) \cup {65280, 65535}, sl \in {0, Max(es * n, 1) - 1, es * n, es * n + 8}, rot \in ElfRots, lst \in BOOLEAN }
+            : sh \in 0..(n + 1) \cup {65280, 65535}, sl \in {0, Max(es * n, 1) - 1, es * n, es * n + 8, es * (n + 1)}, rot \in ElfRots, lst \in BOOLEAN }
           : n \in 0..MaxN, es \in ElfSizes }
   \* strbad: the string table the tag designates lies at an unmapped address.  Iterating, counting and Debug formatting
   \* never resolve a name - only an explicit name() call goes to the external address (C01's one exception)
@@ -34,10 +34,12 @@ ElfParamsSet ==
 ElfTag(p) ==
   \* (with a reserved string-table index the link word of entry 0 - what an "extended index" scheme would consult - is 0)
   LET lk(b, i) == IF p.shndx >= 65280 /\ i = 1 /\ p.es \in {40, 64} THEN Override(b, IF p.es = 40 THEN 24 ELSE 40, <<0, 0, 0, 0>>) ELSE b
-      body == Concat([i \in 1..p.n |-> lk(ElfEntryBytesA(p.es, i - 1, p.rot, i - 1 = p.shndx, IF p.strbad THEN BadAddr ELSE ExtAddr), i)])
+      \* (a tag may hold more headers than it counts; the string table may be one of the surplus ones)
+      cnt == IF p.shndx >= p.n /\ p.shndx < 65280 /\ p.slen >= p.es * (p.shndx + 1) THEN p.shndx + 1 ELSE p.n
+      body == Concat([i \in 1..cnt |-> lk(ElfEntryBytesA(p.es, i - 1, p.rot, i - 1 = p.shndx, IF p.strbad THEN BadAddr ELSE ExtAddr), i)])
       sec == [j \in 1..p.slen |-> IF j <= Len(body) THEN body[j] ELSE FillA(j)] IN
   U32Bytes(9) \o U32Bytes(20 + p.slen) \o U32Bytes(p.n) \o U32Bytes(p.es) \o U32Bytes(p.shndx) \o sec
-ElfNamesOk(p) == p.es \in {40, 64} /\ p.shndx < p.n /\ p.es * p.n <= p.slen
+ElfNamesOk(p) == p.es \in {40, 64} /\ p.shndx < 65280 /\ p.es * (p.shndx + 1) <= p.slen /\ p.es * p.n <= p.slen /\ (p.shndx < p.n \/ p.slen >= p.es * (p.shndx + 1))
 \* name() is called on yielded sections when names resolve, and also when the section table does not fit:
 \* a conforming implementation rejects such a tag before any section is yielded, so name() is never reached
 ElfNoFit(p) == ~(p.n * p.es <= p.slen /\ (p.n = 0 \/ (p.shndx + 1) * p.es <= p.slen))
